@@ -304,6 +304,7 @@ func runSolver(ctx context.Context, sp solverSpec, file string, secs int) solveO
 type dischargeOpts struct {
 	quickSecs int
 	fullSecs  int
+	crossSecs int
 	all       bool // consult every solver on every obligation (thorough)
 	workdir   string
 	jobs      int
@@ -376,7 +377,11 @@ func decide(o *oblig, file string, opt dischargeOpts) {
 			continue
 		}
 		n++
-		go func(sp solverSpec) { ch <- runSolver(cctx, sp, file, opt.fullSecs) }(sp)
+		secs := opt.fullSecs
+		if first.result == "unsat" && opt.all {
+			secs = opt.crossSecs // cross-check of an already discharged obligation: a short look for a disagreement
+		}
+		go func(sp solverSpec, secs int) { ch <- runSolver(cctx, sp, file, secs) }(sp, secs)
 	}
 	results := []solveOut{first}
 	for k := 0; k < n; k++ {
